@@ -168,7 +168,8 @@ def _convert_fcmp(
     pred = flag.value
     is_ordered = pred[0] == "o"
     key = pred[1:]
-    cmpop = _FCMP_CMP_MAP.get(key, pred)
+    # "_false"/"_true" are the MLIR spellings of LLVM's "false"/"true" predicates
+    cmpop = key if pred in ("_false", "_true") else _FCMP_CMP_MAP.get(key, pred)
     fn = builder.fcmp_ordered if is_ordered else builder.fcmp_unordered
     val_map[op.results[0]] = fn(cmpop, val_map[op.lhs], val_map[op.rhs])
 
